@@ -220,8 +220,15 @@ func c08Run(r *hx.Run, bin string, c c08Case, rnd *rand.Rand) {
 	e.farm.SetScript(e.script)
 	e.cl = hx.NewClient(e.now)
 	e.addr, e.admin = srvAddr(ports[0]), srvAddr(ports[1])
+	// every second case uses an LRU far smaller than the working set: entries are evicted and reloaded
+	// from badger all the time, not only after a restart
+	size := 1000
+	if c.ID%2 == 1 {
+		size = 32
+		r.Add("cases_with_lru_smaller_than_working_set", 1)
+	}
 	cfg := &config.PikeConfig{
-		Caches:    []config.CacheConfig{{Name: "c", Size: 1000, HitForPass: strconv.Itoa(c08P) + "s", Store: "badger://" + filepath.Join(dir, "badger")}},
+		Caches:    []config.CacheConfig{{Name: "c", Size: size, HitForPass: strconv.Itoa(c08P) + "s", Store: "badger://" + filepath.Join(dir, "badger")}},
 		Upstreams: []config.UpstreamConfig{{Name: "u", Servers: []config.UpstreamServerConfig{{Addr: e.farm.Origins[0].URL()}}}},
 		Locations: []config.LocationConfig{{Name: "l", Upstream: "u"}},
 		Servers:   []config.ServerConfig{{Addr: e.addr, Locations: []string{"l"}, Cache: "c"}},
@@ -455,7 +462,7 @@ func c08Run(r *hx.Run, bin string, c c08Case, rnd *rand.Rand) {
 
 func c08(r *hx.Run) {
 	r.Level = "fault_enumeration"
-	r.Rule = "real pike binary (race build) with a badger store and a clock file. Per case three incarnations on the same store: (1) populate cacheable (T=100) and uncacheable (period 20 s) keys, 8 sequentially and 48 in one concurrent burst, SIGKILL at quiescence; (2) concurrent writes of 40 new keys, hits and purges (admin API) with the crash armed: self-kill the n-th time a named hook point is reached (cacheable.enter/released/saved, hfp.enter/released/saved, get.loaded, purge.removed; n first/middle/late), external SIGKILL at a random moment, or SIGTERM; (3) restart and probe every key in the same second, at mid-life, at the exact expiry second and one second later; (4) SIGKILL, move the clock past every expiry, restart, probe again (first lookup after the restart). Every answer is judged against the origin's log: byte-identical version of that key, hit only inside the version's original lifetime with Age continuing from the original fetch and no upstream contact, never a version whose purge completed, hit-for-pass only inside a marker's period; pike must come up after every stop. Non-trivial/distinct = (kind, point, n) whose crash point was reached."
+	r.Rule = "real pike binary (race build) with a badger store and a clock file; every second case with an LRU of 32 entries for about 100 keys (constant eviction and reload from badger). Per case three incarnations on the same store: (1) populate cacheable (T=100) and uncacheable (period 20 s) keys, 8 sequentially and 48 in one concurrent burst, SIGKILL at quiescence; (2) concurrent writes of 40 new keys, hits and purges (admin API) with the crash armed: self-kill the n-th time a named hook point is reached (cacheable.enter/released/saved, hfp.enter/released/saved, get.loaded, purge.removed; n first/middle/late), external SIGKILL at a random moment, or SIGTERM; (3) restart and probe every key in the same second, at mid-life, at the exact expiry second and one second later; (4) SIGKILL, move the clock past every expiry, restart, probe again (first lookup after the restart). Every answer is judged against the origin's log: byte-identical version of that key, hit only inside the version's original lifetime with Age continuing from the original fetch and no upstream contact, never a version whose purge completed, hit-for-pass only inside a marker's period; pike must come up after every stop. Non-trivial/distinct = (kind, point, n) whose crash point was reached."
 	r.Assume = []string{"refetching is always allowed (survival of an entry is not demanded)", "clock = real clock + offset file (whole seconds); verdicts use [call,return] clock intervals", "power-loss durability is out of scope (SIGKILL keeps the page cache)"}
 	bin, err := hx.BuildPike(r.Scratch)
 	if err != nil {
